@@ -13,14 +13,18 @@ Record vertex := mkVertex { v_children : list vid; v_parents : list vid; v_retri
 (* a *Task argument: nil, or (ID, has a function) *)
 Definition taskarg := option (vid * bool).
 
+(* an argument expression of a construction call: a Task value, or g.Task(id) evaluated when the
+   call is made *)
+Inductive targ := TA (t : taskarg) | TL (id : vid).
+
 Inductive gop :=
-| GAdd (t : taskarg)
-| GDep (t : taskarg) (deps : list taskarg)
-| GRetries (t : taskarg) (n : Z).
+| GAdd (t : targ)
+| GDep (t : targ) (deps : list targ)
+| GRetries (t : targ) (n : Z).
 
 Inductive gerr :=
 | XNilTask | XMissingID | XMissingFn (id : vid) | XDupDep (a b : vid)
-| XCycle | XTask (id : vid) | XSkipped (id : vid) | XCancel.
+| XCycle | XTask (id : vid) | XSkipped (id : vid) | XCancel | XNotFound (id : vid).
 
 Record graph := mkGraph {
   g_vs : list (vid * vertex);   (* Vertices map, in first-insertion order *)
@@ -97,17 +101,41 @@ Fixpoint depends_on (g : graph) (id : vid) (deps : list taskarg) : graph :=
       end
   end.
 
+(* Graph.Task(id): the Task of a known vertex (its function is never nil), otherwise an error is
+   recorded and an empty Task with that ID is returned *)
+Definition resolve (g : graph) (a : targ) : graph * taskarg :=
+  match a with
+  | TA t => (g, t)
+  | TL id =>
+      match alookup id (g_vs g) with
+      | Some _ => (g, Some (id, true))
+      | None => (add_err g (XNotFound id), Some (id, false))
+      end
+  end.
+
+(* Go evaluates the arguments of a call left to right before the call *)
+Fixpoint resolve_all (g : graph) (l : list targ) : graph * list taskarg :=
+  match l with
+  | [] => (g, [])
+  | a :: r => let (g1, t) := resolve g a in let (g2, ts) := resolve_all g1 r in (g2, t :: ts)
+  end.
+
 Definition apply_gop (g : graph) (op : gop) : graph :=
   match op with
-  | GAdd t => match add_task g t with inl g' => g' | inr e => add_err g e end
-  | GDep t deps =>
-      match retrieve_or_add g t with
-      | inr e => add_err g e
+  | GAdd a =>
+      let (g0, t) := resolve g a in
+      match add_task g0 t with inl g' => g' | inr e => add_err g0 e end
+  | GDep a adeps =>
+      let (ga, t) := resolve g a in
+      let (g0, deps) := resolve_all ga adeps in
+      match retrieve_or_add g0 t with
+      | inr e => add_err g0 e
       | inl (g1, id) => depends_on g1 id deps
       end
-  | GRetries t n =>
-      match retrieve_or_add g t with
-      | inr e => add_err g e
+  | GRetries a n =>
+      let (g0, t) := resolve g a in
+      match retrieve_or_add g0 t with
+      | inr e => add_err g0 e
       | inl (g1, id) =>
           let v := vget g1 id in
           mkGraph (vset id (mkVertex (v_children v) (v_parents v) n) (g_vs g1)) (g_errs g1) (g_dot g1)
